@@ -54,6 +54,7 @@ type Conf struct {
 	DummyAudioWaitMs                int
 	Auth                            SimpleAuth
 	LogLevel                        int // nazalog level; default warn(3)
+	GroupLogSec                     int // debug.log_group_interval_sec (0 = off)
 }
 
 type Ports struct {
@@ -61,6 +62,7 @@ type Ports struct {
 }
 
 type Server struct {
+	Wedged bool // Stop() gave up waiting for Dispose
 	Conf   Conf
 	Root   string
 	Ports  Ports
@@ -159,7 +161,7 @@ func start1(c Conf, root string) (*Server, error) {
 		"pprof":             map[string]interface{}{"enable": false},
 		"log": map[string]interface{}{"level": c.LogLevel, "filename": filepath.Join(root, "logs", "lal.log"), "is_to_stdout": false, "is_rotate_daily": false,
 			"short_file_flag": true, "timestamp_flag": true, "timestamp_with_ms_flag": true, "level_flag": true, "assert_behavior": 1},
-		"debug": map[string]interface{}{"log_group_interval_sec": 0},
+		"debug": map[string]interface{}{"log_group_interval_sec": c.GroupLogSec, "log_group_max_group_num": 10, "log_group_max_sub_num_per_group": 10},
 	}
 	if c.PushAddrs == nil {
 		m["relay_push"].(map[string]interface{})["addr_list"] = []string{}
@@ -206,10 +208,21 @@ func start1(c Conf, root string) (*Server, error) {
 
 // Stop disposes the server and waits for RunLoop to return.
 func (s *Server) Stop() {
-	s.Lal.Dispose()
+	// Dispose takes lal's locks: if the server is wedged it never returns. Give it 10 s, then
+	// give up (Wedged is set; the caller decides what that means for its property).
+	dd := make(chan struct{})
+	go func() {
+		s.Lal.Dispose()
+		close(dd)
+	}()
 	select {
-	case <-s.done:
-	case <-time.After(5 * time.Second):
+	case <-dd:
+		select {
+		case <-s.done:
+		case <-time.After(5 * time.Second):
+		}
+	case <-time.After(10 * time.Second):
+		s.Wedged = true
 	}
 	if p := os.Getenv("VERIF_KEEP_LOG"); p != "" {
 		b, _ := os.ReadFile(filepath.Join(s.Root, "logs", "lal.log"))
